@@ -42,13 +42,13 @@ type c11Params struct {
 }
 
 func c11Default() c11Params {
-	return c11Params{many: []string{"ab", "u1", "AB"}, selT: []string{"s", "n", "one", "many"}, relDataT: []string{"one", "many"}, inclPerm: []int{0, 1, 2}}
+	return c11Params{many: []string{"ab", "u1", "AB"}, selT: []string{"s", "n", "one", "many"}, relDataT: []string{"zzz", "one", "many"}, inclPerm: []int{0, 1, 2}}
 }
 
 func c11Base(i int, p c11Params) *DocCase {
 	c := &DocCase{}
 	softT := i != 1 && i != 4
-	c.Schema = BuildSchema([]TypeD{docT, docU, docQ, c11Wide, c11Vals}, []bool{softT, i%2 == 0, true, true, i != 12})
+	c.Schema = BuildSchema([]TypeD{docT, docU, docQ, c11Wide, c11Vals, {Name: "tu", Attrs: []AttrD{{"s", kStr}}}}, []bool{softT, i%2 == 0, true, true, i != 12, true})
 	mkT := func(soft bool, id string, v int) j.Resource {
 		r := docRes(docT, soft, id, v)
 		many := append([]string{}, p.many...)
@@ -64,12 +64,31 @@ func c11Base(i int, p c11Params) *DocCase {
 	incl := []j.Resource{docRes(docU, i%2 == 0, "u1", 0), docRes(docU, i%2 == 0, "u2", 1), mkT(softT, "z9", 2)}
 	relDataT := append([]string{}, p.relDataT...)
 	if i%2 == 1 || i == 2 {
-		// some but not all selected relationships carry data
-		relDataT = []string{"many"}
+		// some but not all selected relationships carry data (the request also names something
+		// that is no field of the type, as a request written for another type would)
+		var nd []string
+		for _, n := range relDataT {
+			if n != "one" {
+				nd = append(nd, n)
+			}
+		}
+		relDataT = nd
 	}
 	doc := &j.Document{PrePath: "https://h", RelData: map[string][]string{"t": relDataT, "u": {"back"}}}
 	for _, k := range p.inclPerm {
 		doc.Included = append(doc.Included, incl[k])
+	}
+	if i == 3 {
+		// two included resources whose type name + id concatenations coincide ("t"+"u1z", "tu"+"1z"),
+		// in an order that follows the permutation of the others
+		tu := TypeD{Name: "tu", Attrs: []AttrD{{"s", kStr}}}
+		a, b := mkT(softT, "u1z", 0), j.Resource(tu.NewRes(true))
+		b.Set("id", "1z")
+		b.Set("s", "other type")
+		if p.inclPerm[0] != 0 {
+			a, b = b, a
+		}
+		doc.Included = append(doc.Included, a, b)
 	}
 	frag := []string{"t"}
 	switch i {
@@ -148,7 +167,7 @@ func c11Base(i int, p c11Params) *DocCase {
 	}
 	fields := map[string][]string{"t": append([]string{}, p.selT...), "u": {"back", "b"}, docQ.Name: {"s"},
 		"w": {"r2", "r1", "f9", "f8", "f7", "f6", "f5", "f4", "f3", "f2", "f1", "f0"},
-		"v": {"py", "many", "pat", "y", "at", "ps"}}
+		"v": {"py", "many", "pat", "y", "at", "ps"}, "tu": {"s"}}
 	if i == 9 {
 		delete(fields, "u")
 		doc.Included = doc.Included[:0]
@@ -303,10 +322,10 @@ func c11Body(x *mc.Exec) {
 			p.selT = []string{src[perm[0]], src[perm[1]], src[perm[2]], src[perm[3]]}
 			what = fmt.Sprintf("selection order %v", p.selT)
 		case 2:
-			k := x.Choose(2, "relData order")
-			if k == 1 {
-				p.relDataT = []string{"many", "one"}
-			}
+			k := x.Choose(6, "relData order")
+			perm := mc.Perm(3, k)
+			src := c11Default().relDataT
+			p.relDataT = []string{src[perm[0]], src[perm[1]], src[perm[2]]}
 			what = fmt.Sprintf("relData order %v", p.relDataT)
 		case 3:
 			k := x.Choose(6, "included order")
@@ -453,7 +472,7 @@ func init() {
 	Register(&Prop{
 		Post: c11Conformance,
 		ID: "C11",
-		Rule: "Engine A over 13 base (document, URL) pairs, every URL with size, number and four custom page[...] keys and a nested filter of unsorted operands (soft / wrapped single resource with 3 included of mixed implementations, Resources / SoftCollection / WrapperCollection, errors with links/source/meta maps, identifiers + nested meta + links map, names needing escapes, a 12-field type with a long selection given in reverse order, a mixed collection one of whose member types has no selection entry, a document with 45 included resources marshaled on 4 processors, soft and wrapped resources whose values sit behind pointers: zoned nanosecond times, byte strings): (i) map schedules: the iteration order of EVERY instrumented map-range loop instance met while marshaling (all n! orders for n <= 4 keys, reversal/rotations/adjacent swaps above) is an environment choice; all executions with <= 1 (thorough 2) deviating loop instances, plus the uniform reversed and rotated schedules; (ii) all orders of a 3-id to-many list, of a 4-name field selection, of the relationship-data list and of a 3-element included list with distinct ids; (iii) three marshals in a row on the same objects, then a fourth after every order-irrelevant part was reversed in place; (iv) each base marshaled before and after documents whose types have the same names and other fields. Oracle: byte-identical output everywhere; everything later readable from the resources and the URL (modulo the three exempted orders) unchanged. Non-trivial = execution with at least one deviating loop / a non-default permutation",
+		Rule: "Engine A over 13 base (document, URL) pairs, every URL with size, number and four custom page[...] keys and a nested filter of unsorted operands (soft / wrapped single resource with 3 included of mixed implementations, Resources / SoftCollection / WrapperCollection, errors with links/source/meta maps, identifiers + nested meta + links map, names needing escapes, a 12-field type with a long selection given in reverse order, a mixed collection one of whose member types has no selection entry, a document with 45 included resources marshaled on 4 processors, soft and wrapped resources whose values sit behind pointers: zoned nanosecond times, byte strings): (i) map schedules: the iteration order of EVERY instrumented map-range loop instance met while marshaling (all n! orders for n <= 4 keys, reversal/rotations/adjacent swaps above) is an environment choice; all executions with <= 1 (thorough 2) deviating loop instances, plus the uniform reversed and rotated schedules; (ii) all orders of a 3-id to-many list, of a 4-name field selection, of a 3-name relationship-data list (one name no field of the type) and of an included list with distinct ids (two of them with coinciding type+id concatenations); (iii) three marshals in a row on the same objects, then a fourth after every order-irrelevant part was reversed in place; (iv) each base marshaled before and after documents whose types have the same names and other fields. Oracle: byte-identical output everywhere; everything later readable from the resources and the URL (modulo the three exempted orders) unchanged. Non-trivial = execution with at least one deviating loop / a non-default permutation",
 		Assumptions: []string{"the repository suite passing under the instrumented build (sorted, reversed, rotated schedules) binds the rewritten loops to the original ones"},
 		Harnesses: []Harness{{Name: "C11/marshal", Body: c11Body, Dev: func() int {
 			if Thorough() {
